@@ -3,6 +3,7 @@ package props
 import (
 	"fmt"
 	"go/ast"
+	"go/token"
 	"go/types"
 	"sort"
 	"strings"
@@ -316,7 +317,7 @@ func hasVisitedGuard(info *types.Info, body ast.Node) (string, bool) {
 // string (TrimPrefix, case conversion, …) makes export → import → export
 // differ for some names.
 func verbatimImport(r *core.Run, imp []ast.Node, info *types.Info) {
-	r.Rule("R-SYM/S5v", "in schema_from_desc.go every string-typed field of the rebuilt schema that is fed from the source description is the source field itself (a selector chain), not the result of a call applied to it; the exporter writes the in-memory strings unchanged, so any transformation on the way back is not idempotent for some names")
+	r.Rule("R-SYM/S5v", "in schema_from_desc.go every string- or boolean-typed field of the rebuilt schema that is fed from the source description is the source field itself (a selector chain or its generated getter), not the result of a call applied to it or of a boolean combination with other source attributes; the exporter writes the in-memory strings unchanged, so any transformation on the way back is not idempotent for some names")
 	n := 0
 	for _, body := range imp {
 		ast.Inspect(body, func(nd ast.Node) bool {
@@ -337,30 +338,84 @@ func verbatimImport(r *core.Run, imp []ast.Node, info *types.Info) {
 			if rhs == nil {
 				return true
 			}
-			if b, ok := info.TypeOf(rhs).(*types.Basic); !ok || b.Kind() != types.String {
+			bt, ok := info.TypeOf(rhs).Underlying().(*types.Basic)
+			if !ok || (bt.Kind() != types.String && bt.Info()&types.IsBoolean == 0) {
 				return true
 			}
-			call, ok := core.Unparen(rhs).(*ast.CallExpr)
-			if !ok || core.IsConversion(info, call) {
-				return true
-			}
-			// does an argument read the source description (schema_j5pb message)?
-			fromSrc := false
-			for _, a := range call.Args {
-				ast.Inspect(a, func(y ast.Node) bool {
+			readsSrc := func(e ast.Expr) bool {
+				from := false
+				ast.Inspect(e, func(y ast.Node) bool {
 					if s, ok := y.(*ast.SelectorExpr); ok {
 						if nt := core.NamedOf(info.TypeOf(s.X)); nt != nil && nt.Obj().Pkg() != nil && nt.Obj().Pkg().Path() == schemaPB {
-							fromSrc = true
+							from = true
+						}
+					}
+					if id, ok := y.(*ast.Ident); ok {
+						if nt := core.NamedOf(info.TypeOf(id)); nt != nil && nt.Obj().Pkg() != nil && nt.Obj().Pkg().Path() == schemaPB {
+							if _, isVar := info.Uses[id].(*types.Var); isVar {
+								from = true
+							}
 						}
 					}
 					return true
 				})
+				return from
 			}
-			if !fromSrc {
+			what := ""
+			switch y := core.Unparen(rhs).(type) {
+			case *ast.CallExpr:
+				if core.IsConversion(info, y) {
+					return true
+				}
+				// generated getters are the field itself
+				if sel, ok := y.Fun.(*ast.SelectorExpr); ok && len(y.Args) == 0 && strings.HasPrefix(sel.Sel.Name, "Get") {
+					if nt := core.NamedOf(info.TypeOf(sel.X)); nt != nil && nt.Obj().Pkg() != nil && nt.Obj().Pkg().Path() == schemaPB {
+						return true
+					}
+				}
+				src := false
+				for _, a := range y.Args {
+					if readsSrc(a) {
+						src = true
+					}
+				}
+				if !src {
+					return true
+				}
+				// a helper that only hands back a field of its argument is still the field itself
+				if fn := core.CalleeFunc(info, y); fn != nil && fn.Pkg() != nil && core.IsSource(fn.Pkg().Path()) {
+					if cpk := r.P.ByPkg[fn.Pkg().Path()]; cpk != nil {
+						if cd := core.DeclOf(cpk, fn.Origin()); cd != nil && cd.Body != nil && len(cd.Body.List) == 1 {
+							if ret, ok := cd.Body.List[0].(*ast.ReturnStmt); ok && len(ret.Results) == 1 {
+								switch z := core.Unparen(ret.Results[0]).(type) {
+								case *ast.SelectorExpr:
+									if _, isID := core.Unparen(z.X).(*ast.Ident); isID {
+										return true
+									}
+								case *ast.CallExpr:
+									if sel, ok := z.Fun.(*ast.SelectorExpr); ok && len(z.Args) == 0 && strings.HasPrefix(sel.Sel.Name, "Get") {
+										return true
+									}
+								}
+							}
+						}
+					}
+				}
+				what = "a function of the exported value"
+			case *ast.BinaryExpr:
+				// a boolean combined from source fields (`x.Required || …`), or a string spliced together
+				if !readsSrc(y) || bt.Kind() == types.String {
+					return true
+				}
+				if y.Op != token.LOR && y.Op != token.LAND {
+					return true // comparisons derive a flag from a non-boolean attribute: not a copy of an exported boolean
+				}
+				what = "a combination of exported values"
+			default:
 				return true
 			}
 			n++
-			o := r.Add("R-SYM/S5v", fmt.Sprintf("schema_from_desc | %s = %s", lhs, core.ExprStr(rhs)), rhs.Pos(), "string field rebuilt through a function of the exported string")
+			o := r.Add("R-SYM/S5v", fmt.Sprintf("schema_from_desc | %s = %s", lhs, core.NormExpr(info, rhs)), rhs.Pos(), "field rebuilt through "+what)
 			if !r.Table("sym_sites", o) {
 				o.Fail("%s is rebuilt as %s: the exporter wrote the in-memory value unchanged, so applying a function on import changes values the function is not the identity on (export → import → export differs)", lhs, core.ExprStr(rhs))
 			}
